@@ -2,6 +2,7 @@
 import json
 import os
 import subprocess
+import numpy as np
 from harness import core
 
 ID = 'C19'
@@ -57,6 +58,12 @@ print(json.dumps(out))
     impl = 'ok ' + ' '.join(info['all']) if info['star'] == 'ok' else 'AttributeError ' + info['star'].split("'")[-2]
     if ml != impl:
         ctx.disagree('star-import-equals-model', case, impl, ml)
+
+
+class NoTruth:
+    """a return value that refuses to be truth-tested"""
+    def __bool__(self):
+        raise RuntimeError('the return value of an observer was truth-tested')
 
 
 class Src:
@@ -119,28 +126,39 @@ def observe_cases(ctx):
         fail = rng.random() < 0.2
         k = rng.randint(0, n + 2)
         close = rng.random() < 0.4
+        long_stream = (not timed) and rng.random() < 0.06
+        if long_stream:
+            n = rng.choice([130, 300])          # longer than an 8-bit counter can count
+            k = n + 1
         src = Src(n, fail)
         log = []
-        funcs = [(lambda el, j=j: log.append((j, el))) for j in range(nf)]
+        # what an observer returns is its own business (file.write returns a count, a predicate returns a bool, ...): never looked at
+        rets = [rng.choice([None, None, True, 1, 'text', [0], np.array([1, 2]), NoTruth(), 'el']) for _ in range(nf)]
+        funcs = [(lambda el, j=j: (log.append((j, el)), el if isinstance(rets[j], str) and rets[j] == 'el' else rets[j])[1]) for j in range(nf)]
         if not timed:
-            iv = rng.choice([1, 1, 2, 3, 7])
-            stream = S.observe(src, *funcs, interval=iv)
+            # the interval may come as any integer-like number (a numpy scalar from a config array, a bool, a float like 2.0)
+            iv_raw = rng.choice([np.int8(3), np.uint8(5), np.int16(2), np.int64(3), 2.0, True]) if (long_stream or rng.random() < 0.15) \
+                else rng.choice([1, 1, 2, 3, 7])
+            iv = int(iv_raw)
+            stream = S.observe(src, *funcs, interval=iv_raw)
             if src.i != 0 or log:
                 ctx.fail('observe-not-lazy', 'creating the stream drew elements or called observers', dict(helper='observe'))
                 continue
             got, hist, status = drive(stream, src, k, close)
-            case = dict(helper='observe', n=n, nfuncs=nf, interval=iv, k=k, close=close, source_fails=fail)
+            case = dict(helper='observe', n=n, nfuncs=nf, interval=iv, interval_type=type(iv_raw).__name__, k=k, close=close, source_fails=fail)
             want_calls = [(j, ('el', i)) for i in range(min(k, n)) if i % iv == 0 for j in range(nf)]
             lines.append('strm.observe %d %d %d %s | %s' % (nf, iv, n, 'e1' if fail else '-', ' '.join(['N'] * k + (['C'] if close else []))))
             nontriv = iv >= 2 and n > iv
         else:
             iv_s = rng.choice([0.5, 1.0, 0.001])
             iv_ns = int(float(iv_s) * 1e9)
-            t = iv_ns + rng.randint(1, 10 ** 9)
+            # small readings, or real epoch nanoseconds (1.7e18 > 2**53) with arrivals a few ns around the interval boundary:
+            # the comparison is one of integers
+            t = iv_ns + rng.randint(1, 10 ** 9) if rng.random() < 0.6 else 1700000000000000000 + rng.randint(1, 10 ** 9)
             readings = []
             for _ in range(n + 3):
                 readings.append(t)
-                t += rng.choice([0, 0, 1, iv_ns // 2, iv_ns, iv_ns + 1, 3 * iv_ns])
+                t += rng.choice([0, 0, 1, iv_ns // 2, iv_ns, iv_ns + 1, iv_ns + 100, iv_ns - 100, 3 * iv_ns])
             clk = Clock(readings)
             old = S.time
             S.time = clk
